@@ -203,7 +203,7 @@ SPECS = {
         "stages": (lambda tier: dict_stages(ALL, 40, 8, floors={"c06_stream_of_two": 200})(tier) + nsweep_stage(ALL, 1)(tier)),
         "rule": "case as C01; non-trivial = n>=2 and the two-image stream was read back completely (tellg after each own-loader "
                 "call == bytes written, sentinel intact); distinct = hash of (kind, params, S, op bytes)",
-        "assumptions": DICT_ASSUME + ["HASHRPDACBlocks is loaded through its own loader only (the generic dispatcher has no case for tag 125)"],
+        "assumptions": DICT_ASSUME,
     },
     "C07": {
         **_meta('Everything the other dictionary drivers do (all sweeps, all states, abandoned iterators, repeated saves), plus run-time MEMALLOC 1..32768 and bucket sizes 0/1, executed under ASan (recover mode) + UBSan array-bounds/null with fatal signals and a CPU watchdog caught per call; every sanitizer report, signal or escaped exception is an event.', 'property-based testing + sanitizers as oracle (ASan/UBSan reports, caught fatal signals, CPU-time watchdog on tiny inputs)'),
